@@ -325,3 +325,8 @@ def _fieldless(repo: Repo, rep: Report) -> None:
                           "a non-mapping argument is accepted silently (no ValueError)", generated=text[:400], loc=fi.loc)
     if not found:
         rep.undecide("R05.3z", "could not reach the zero-field path of _add_unpack_method_lines")
+
+
+_ADDENDUM = ' The field block analysis treats a generator path that never asks whether the unpacker is the identity as serving both kinds of field. Borrowed: R12.1c (exception translation of the discriminator dispatcher).'
+EXPLANATION += _ADDENDUM
+LEVEL_TEXT += _ADDENDUM
